@@ -98,12 +98,28 @@ def hLvlAddr : Handler
     pure (showPyM hex (pipeAddress cfg (lvl2addr l) 0))
   | _ => none
 
-/-- `setmclvl <pfx> <sfxhex> <am> <lvl:int>` : `multicast_level = lvl` → new level, pipe-0 address -/
+/-- `multicast_level = lvl` on a node object constructed at `node` whose pipes were opened under
+    `cfg` (constructor: `ValueError` for an invalid address; `_begin`: the first `IndexError` of
+    `_pipe_address` aborts) → new level, pipe-0 address -/
+def setMcLvlOn (cfg : AddrCfg) (node : Nat) (l : Int) : String :=
+  if !isValid node then "exc=ValueError"
+  else match beginPipes cfg node with
+    | .error e => "exc=" ++ e.name
+    | .ok _ => s!"{setMulticastLevel l} {showPyM hex (multicastLevelAddr cfg node l)}"
+
+/-- `setmclvl <pfx> <sfxhex> <am> <node> <lvl:int>` : `multicast_level = lvl` on node `node` → new
+    level, pipe-0 address.  Legacy form `setmclvl <pfx> <sfxhex> <am> <lvl:int>` : the same on a
+    node at address 0o123 (the object the harness used before the op took a node argument). -/
 def hSetMcLvl : Handler
+  | [pfx, sfx, am, node, l] => do
+    let cfg ← parseCfg pfx sfx am
+    let a ← parseNat node
+    let l ← parseInt l
+    pure (setMcLvlOn cfg a l)
   | [pfx, sfx, am, l] => do
     let cfg ← parseCfg pfx sfx am
     let l ← parseInt l
-    pure s!"{setMulticastLevel l} {showPyM hex (multicastLevelAddr cfg l)}"
+    pure (setMcLvlOn cfg 0o123 l)
   | _ => none
 
 /-- `mcast <pfx> <sfxhex> <am> <node> <netlvl|-> <level|none>` : `multicast(level=…)` from `node`
